@@ -1,3 +1,93 @@
 import Holpy.Common.Sexp
-/- stub: replaced when the C08 model is built -/
-def main : IO Unit := Holpy.lineLoop (fun _ => "bad-op")
+import Holpy.C08.Model
+/-
+Line protocol for the C08 model (one s-expression in, one out):
+  (infer FORBID FUEL VARS SVARS SIG SKEL) -> (ok TERM) | (error KIND)
+  (check TERM)                            -> (type TY) | none          checked_get_type
+TY   = (tv name) | (sv name) | (c name TY ...)        `(sv _t<digits>)` is an internal variable
+SKEL = (var n TY|none) | (svar n TY|none) | (const n TY|none) | (comb f a) | (abs x TY|none b) | (bound i)
+VARS/SVARS/SIG = ((name TY) ...)
+-/
+open Holpy Holpy.C08
+
+namespace Holpy.C08.Driver
+
+def tnameOf (s : String) : TName :=
+  if s.startsWith "_t" then
+    match (s.drop 2).toNat? with
+    | some k => .internal k
+    | none => .user s
+  else .user s
+
+partial def tyOf : Sexp → Option Ty
+  | .list [.atom "tv", .atom n] => some (.tvar n)
+  | .list [.atom "sv", .atom n] => some (.stvar (tnameOf n))
+  | .list (.atom "c" :: .atom n :: args) => do some (.con n (← args.mapM tyOf))
+  | _ => none
+
+def optTyOf : Sexp → Option (Option Ty)
+  | .atom "none" => some none
+  | s => (tyOf s).map some
+
+partial def skelOf : Sexp → Option Skel
+  | .list [.atom "var", .atom n, T] => do some (.var n (← optTyOf T))
+  | .list [.atom "svar", .atom n, T] => do some (.svar n (← optTyOf T))
+  | .list [.atom "const", .atom n, T] => do some (.const n (← optTyOf T))
+  | .list [.atom "comb", f, a] => do some (.comb (← skelOf f) (← skelOf a))
+  | .list [.atom "abs", .atom x, T, b] => do some (.abs x (← optTyOf T) (← skelOf b))
+  | .list [.atom "bound", i] => do some (.bound (← i.toNat?))
+  | _ => none
+
+def bindingsOf (s : Sexp) : Option (List (String × Ty)) := do
+  (← s.toList?).mapM fun
+    | .list [.atom n, T] => do some (n, (← tyOf T))
+    | _ => none
+
+partial def tyTo : Ty → Sexp
+  | .tvar n => .list [.atom "tv", .atom n]
+  | .stvar (.user n) => .list [.atom "sv", .atom n]
+  | .stvar (.internal k) => .list [.atom "sv", .atom ("_t" ++ toString k)]
+  | .con n args => .list (.atom "c" :: .atom n :: args.map tyTo)
+
+def optTyTo : Option Ty → Sexp
+  | none => .atom "none"
+  | some T => tyTo T
+
+def skelTo : Skel → Sexp
+  | .var n T => .list [.atom "var", .atom n, optTyTo T]
+  | .svar n T => .list [.atom "svar", .atom n, optTyTo T]
+  | .const n T => .list [.atom "const", .atom n, optTyTo T]
+  | .comb f a => .list [.atom "comb", skelTo f, skelTo a]
+  | .abs x T b => .list [.atom "abs", .atom x, optTyTo T, skelTo b]
+  | .bound i => .list [.atom "bound", Sexp.ofNat i]
+
+def errTo : Err → String
+  | .occurs => "occurs"
+  | .clash => "clash"
+  | .notfun => "notfun"
+  | .unspecified => "unspecified"
+  | .noconst => "noconst"
+  | .crash => "crash"
+  | .fuel => "fuel"
+
+def handle (line : String) : String :=
+  match Sexp.parse line with
+  | some (.list [.atom "infer", forbid, fuel, vars, svars, sig, skel]) =>
+    match forbid.toBool?, fuel.toNat?, bindingsOf vars, bindingsOf svars, bindingsOf sig, skelOf skel with
+    | some fb, some f, some v, some sv, some sg, some t =>
+      match typeInfer ⟨v, sv, sg⟩ f fb t with
+      | .ok t' => toString (Sexp.list [.atom "ok", skelTo t'])
+      | .error e => toString (Sexp.list [.atom "error", .atom (errTo e)])
+    | _, _, _, _, _, _ => "bad-op"
+  | some (.list [.atom "check", skel]) =>
+    match skelOf skel with
+    | some t =>
+      match checkedGetType t [] with
+      | some T => toString (Sexp.list [.atom "type", tyTo T])
+      | none => "none"
+    | none => "bad-op"
+  | _ => "bad-op"
+
+end Holpy.C08.Driver
+
+def main : IO Unit := Holpy.lineLoop Holpy.C08.Driver.handle
